@@ -1751,6 +1751,11 @@ class GroupBy:
             self._unify_group_key_chunks()
 
         if index_by_groups:
+            if times is not None and len(times) != len(self):
+                # times is re-ordered below, which would hide the mismatch from ema_grouped
+                raise ValueError(
+                    f"Length of times ({len(times)}) does not match length of group keys ({len(self)})"
+                )
             indexer = self._group_sort_indexer
             result_index = self._build_group_sorted_index(common_index)
             group_counts = self.ikey_count[self._labels_argsort]
